@@ -270,7 +270,15 @@ def run(ctx):
     try:
         ctx.gen("Bytecode.lean", gen_bytecode.render(tree))
         opl, types, jint = gen_bytecode.extract(tree)
-        lb, _ = gen_marsh.extract(tree)
+        try:
+            lb, _ = gen_marsh.extract(tree)
+        except ExtractError as e:
+            # the integer codec changed shape (C09's tie): note it, keep going with the lead-byte enum alone so that the
+            # search below still runs and can find the failing input
+            broken.append("translator tools/gen/marsh.py: %s" % e)
+            ctx.broken.append(broken[-1])
+            from tools.gen import csrc as _csrc
+            lb = _csrc.enum_values(_csrc.strip_comments(_csrc.read(tree, "src/core/marsh.c")), "LB_REAL")
         ops = ig.Ops(opl, types, gen_vm.asm_mnemonics(tree))
         ctx.gen("VmAccess.lean", gen_vm.render(tree))
         ctx.gen("ImageChecks.lean", gen_vm.render_image_checks(tree))
